@@ -187,6 +187,8 @@ def generate_and_run(rng, profile, max_client_ops=None):
             "volume": rng.choice([None, 0, 40, 100]) if profile == "restore" else None,
             "mute": rng.choice([None, True, False]) if profile == "restore" else None,
             "ops": [], "profile": profile}
+    if profile == "restore" and rng.random() < 0.3:
+        case["via_setup"] = rng.choice([0, 25, 80])   # audio/mixer_volume configured; restart through Core._setup
     runner = core_run.Runner(case)
     sim = Sim()
     obs = []
